@@ -584,3 +584,560 @@ Proof.
       * rewrite evs_mark_failed_list. exact A.
     + intros y Hy. destruct (B _ Hy) as (sc & res & E). discriminate.
 Qed.
+
+(** * The monitor codes of family 17 are silent on the trace of every dry run of the model *)
+Definition c17_code (k : nat) : Prop := k = 17 \/ k = 171 \/ k = 172 \/ k = 173.
+
+Lemma cseen_deliver m r : cseen (deliver m r) = cseen m.
+Proof. destruct r as [x [v|]]; [|reflexivity]. destruct v; reflexivity. Qed.
+Lemma cseen_fold_deliver reps : forall m, cseen (fold_left deliver reps m) = cseen m.
+Proof. induction reps as [|r reps IH]; intros m; cbn [fold_left]; [reflexivity|]. rewrite IH. apply cseen_deliver. Qed.
+
+Lemma cseen_step_base_mono c g p b e : cseen b = true -> cseen (step_base c g p b e) = true.
+Proof.
+  intros H. destruct e as [js|js|x|x k sched res]; cbn [step_base]; auto.
+  - destruct (qcode p); cbn; rewrite ?cseen_fold_deliver; exact H.
+  - destruct res as [j|]; [|exact H]. destruct sched; exact H.
+Qed.
+
+Lemma cseen_fold_ev_mono c g p es : forall m, cseen (mb m) = true -> cseen (mb (fold_left (step_ev c g p) es m)) = true.
+Proof.
+  induction es as [|e es IH]; intros m H; cbn [fold_left]; [exact H|]. apply IH. cbn. apply cseen_step_base_mono. exact H.
+Qed.
+
+(** generation events leave the ledger alone *)
+Lemma fold_ev_gens c g p l : forall m, mb (fold_left (step_ev c g p) (map EGen l) m) = mb m.
+Proof. induction l as [|x l IH]; intros m; cbn [map fold_left]; [reflexivity|]. rewrite IH. reflexivity. Qed.
+
+(** the adapter calls of a dry poll raise no code of the family *)
+Lemma flags_ev_c17 c g p b e k : dry c = true -> dry_ev_ok e = true -> c17_code k -> ~ In k (flags_ev c g p b e).
+Proof.
+  intros Hd He Hk H. destruct e as [js|js|x|x kd sched res]; try discriminate; cbn [flags_ev] in H.
+  - destruct js; [|discriminate]. rewrite Hd in H. cbn in H. in_cks H;
+      try (destruct Hk as [-> | [-> | [-> | ->]]]; discriminate); try contradiction.
+  - apply In_ck in H. destruct H as [H _]. destruct Hk as [-> | [-> | [-> | ->]]]; discriminate.
+Qed.
+
+Lemma fold_ev_c17 c g p k es : dry c = true -> forallb dry_ev_ok es = true -> c17_code k ->
+  forall m, ~ In k (viol m) -> ~ In k (viol (fold_left (step_ev c g p) es m)).
+Proof.
+  intros Hd. induction es as [|e es IH]; intros He Hk m Hm; cbn [fold_left]; [exact Hm|].
+  cbn in He. apply andb_true_iff in He. destruct He as [He1 He2].
+  apply IH; auto. cbn. rewrite in_app_iff. intros [H|H]; [exact (Hm H)|].
+  exact (flags_ev_c17 c g p (mb m) e k Hd He1 Hk H).
+Qed.
+
+Lemma flags_end_c17 c g p b rows stat k : c17_code k -> In k (flags_end c g p b rows stat) ->
+  (k = 171 /\ (negb (dry c) || negb (sstatus_eqb stat SFINISHED || sstatus_eqb stat SFAILURE || sstatus_eqb stat SCANCELLED)
+               || cseen b || (forallb (fun x => state_eqb (row_status rows x) DRYRUN) (all_nodes g) &&
+                              sstatus_eqb stat SFINISHED)) = false) \/
+  (k = 172 /\ (negb (dry c) || cseen b || (npolls b <=? length g)) = false).
+Proof.
+  intros Hk H. unfold flags_end in H. cbv zeta in H.
+  in_cks H; try (exfalso; destruct Hk as [-> | [-> | [-> | ->]]]; discriminate); auto.
+Qed.
+
+Lemma row_status_rows_of s x : row_status (rows_of s) x = status (getrec s x).
+Proof.
+  unfold row_status, rows_of, getrec.
+  change (INITIALIZED, @nil nat, 0) with ((fun r => (status r, jobs r, restarts r)) dflt_rec).
+  rewrite map_nth. reflexivity.
+Qed.
+
+Theorem monitor_c17_silent c g k : WF g -> dry c = true -> c17_code k -> forall ps s m,
+  inprog s = [] ->
+  (cseen (mb m) = false -> Dry g s /\ npolls (mb m) <= length (completed s)) ->
+  ~ In k (viol m) ->
+  ~ In k (viol (fold_left (step_poll c g) (zip ps (run c g s ps)) m)).
+Proof.
+  intros W Hd Hk. induction ps as [|p ps IH]; intros s m Hi Hc Hv; [exact Hv|].
+  cbn [run].
+  pose proof (dry_poll_events c g s p Hd Hi) as Ev.
+  pose proof (dry_poll_inprog c g s p Hd Hi) as Hi1.
+  destruct (poll c g s p) as [s1 r] eqn:E. cbn [fst] in Ev, Hi1.
+  set (es := rev (evs s1)).
+  assert (Ev' : forallb dry_ev_ok es = true).
+  { apply forallb_forall. intros e He. unfold es in He. apply in_rev in He.
+    rewrite forallb_forall in Ev. auto. }
+  set (m0 := pre_poll p es m).
+  set (m1 := fold_left (step_ev c g p) es m0).
+  assert (V0 : ~ In k (viol m0)).
+  { unfold m0, pre_poll. destruct (cancel_req p); [|exact Hv]. cbn. rewrite in_app_iff.
+    intros [H|H]; [exact (Hv H)|]. apply In_ck in H. destruct H as [H _].
+    destruct Hk as [-> | [-> | [-> | ->]]]; discriminate. }
+  assert (V1 : ~ In k (viol m1)) by (apply fold_ev_c17; auto).
+  (* if no cancel has been seen after the events, the poll was an ordinary dry poll *)
+  assert (Quiet : cseen (mb m1) = false ->
+            cancel_req p = false /\ mb m1 = mb m /\ Dry g s /\ npolls (mb m) <= length (completed s)).
+  { intros Hc1.
+    assert (Hcr : cancel_req p = false).
+    { destruct (cancel_req p) eqn:Cr; auto. exfalso.
+      assert (cseen (mb m1) = true); [|congruence].
+      apply cseen_fold_ev_mono. unfold m0, pre_poll. rewrite Cr. reflexivity. }
+    assert (E0 : m0 = m) by (unfold m0, pre_poll; rewrite Hcr; reflexivity).
+    destruct (cseen (mb m)) eqn:Cm.
+    { exfalso. assert (cseen (mb m1) = true); [|congruence]. apply cseen_fold_ev_mono. rewrite E0. exact Cm. }
+    destruct (Hc eq_refl) as [D B].
+    destruct (dry_poll_gens c g s p Hd Hcr D) as (l & G1 & _). rewrite E in G1. cbn [fst] in G1.
+    splits; auto. unfold m1, es. rewrite G1, fold_ev_gens, E0. reflexivity. }
+  assert (Step : ~ In k (viol (step_poll c g m (p, (es, rows_of s1, r))))).
+  { unfold step_poll. fold m0. fold m1. cbn [viol]. rewrite in_app_iff. intros [H|H]; [exact (V1 H)|].
+    destruct (flags_end_c17 c g p (mb m1) (rows_of s1) r k Hk H) as [[_ A]|[_ A]].
+    - rewrite Hd in A. cbn [negb orb] in A. apply orb_false_iff in A. destruct A as [A A3].
+      apply orb_false_iff in A. destruct A as [A1 A2]. apply negb_false_iff in A1.
+      destruct (Quiet A2) as (Hcr & _ & D & _).
+      destruct (dry_poll_progress c g s p W Hd Hcr D) as (D1 & _ & R). rewrite E in R, D1. cbn [fst snd] in R, D1.
+      destruct R as [[-> Ad]|[-> _]]; [|discriminate].
+      assert (forallb (fun x => state_eqb (row_status (rows_of s1) x) DRYRUN) (all_nodes g) = true).
+      { apply forallb_forall. intros x Hx. unfold all_nodes in Hx. apply In_seq_lt in Hx.
+        rewrite row_status_rows_of, (d_status g s1 D1 x Hx).
+        assert (M : mem x (completed s1) = true) by (apply mem_In; auto). rewrite M. reflexivity. }
+      rewrite H0 in A3. discriminate.
+    - rewrite Hd in A. cbn [negb orb] in A. apply orb_false_iff in A. destruct A as [A2 A3].
+      destruct (Quiet A2) as (_ & Em & D & B). rewrite Em in A3.
+      apply Nat.leb_gt in A3. pose proof (Dry_completed_le g s D). lia. }
+  destruct r; try (cbn [zip fold_left]; destruct ps; exact Step).
+  cbn [zip fold_left]. apply IH; auto.
+  unfold step_poll. fold m0. fold m1. cbn [mb end_base cseen npolls]. intros Hc1.
+  destruct (Quiet Hc1) as (Hcr & Em & D & B).
+  destruct (dry_poll_progress c g s p W Hd Hcr D) as (D1 & _ & R). rewrite E in R, D1. cbn [fst snd] in R, D1.
+  split; auto. destruct R as [[R _]|[_ L]]; [discriminate|]. rewrite Em. lia.
+Qed.
+
+Corollary model_trace_c17_codes c g ps k : WF g -> dry c = true -> c17_code k ->
+  ~ In k (viol_of c g ps (run c g (init g) ps)).
+Proof.
+  intros W Hd Hk. unfold viol_of, monitor. apply monitor_c17_silent; auto.
+  intros _. split; [apply Dry_init|]. cbn. lia.
+Qed.
+
+(** hence the monitor predicate of C17 holds of every dry run of the model *)
+Corollary model_prop_ok_17 c g ps : WF g -> dry c = true -> prop_ok 17 c g ps (run c g (init g) ps) = true.
+Proof.
+  intros W Hd. unfold prop_ok. cbv zeta. apply forallb_forall. intros k Hk.
+  apply negb_true_iff. apply mem_false. apply model_trace_c17_codes; auto.
+  cbn in Hk. unfold c17_code. intuition.
+Qed.
+
+(** * Part 4: the dry run against the ideal real run (C17_same_scripts)
+    The ideal real run: no cancel request, every query OK and reporting every tracked job
+    FINISHED, every submission successful.  It proceeds in lock-step with the dry run of the
+    same graph and throttle: same queue, same dependency table, same slot arithmetic, and
+    poll by poll the same sequence of script generations. *)
+Definition ipin (s : st) : pin :=
+  {| cancel_req := false; qcode := QOK; reports := map (fun x => (x, Some FINISHED)) (inprog s); psubs := [] |}.
+
+Definition fin (x : nat) (s : st) : st := inprog_remove x (completed_add x (rec_set_status x FINISHED s)).
+
+Lemma fold_finished c g L : forall s cl ca,
+  fold_left (handle_report_gen c g) (map (fun x => (x, Some FINISHED)) L) (s, cl, ca) =
+  (fold_left (fun s x => fin x s) L s, cl, ca).
+Proof. induction L as [|a L IH]; intros s cl ca; cbn [map fold_left]; [reflexivity|]. rewrite <- IH. reflexivity. Qed.
+
+Lemma dispatch_finished c g L s :
+  dispatch_gen c g (map (fun x => (x, Some FINISHED)) L) s = fold_left (fun s x => fin x s) L s.
+Proof. unfold dispatch_gen. rewrite fold_finished. reflexivity. Qed.
+
+Lemma fold_fin_props L : forall s,
+  let s' := fold_left (fun s x => fin x s) L s in
+  ready s' = ready s /\ deps s' = deps s /\ canceled s' = canceled s /\ failed s' = failed s /\
+  cancelled s' = cancelled s /\ subs s' = subs s /\ evs s' = evs s /\ length (recs s') = length (recs s) /\
+  (forall x, In x (completed s') <-> In x (completed s) \/ In x L) /\
+  (forall x, In x (inprog s') <-> In x (inprog s) /\ ~ In x L) /\
+  (forall x, status (getrec s x) <> INITIALIZED -> status (getrec s' x) <> INITIALIZED) /\
+  (forall x, ~ In x L -> getrec s' x = getrec s x).
+Proof.
+  induction L as [|a L IH]; intros s; cbn [fold_left].
+  - splits; auto; intros x; cbn; tauto.
+  - specialize (IH (fin a s)). cbv zeta in IH.
+    destruct IH as (A1 & A2 & A3 & A4 & A5 & A6 & A7 & A8 & A9 & A10 & A11 & A12).
+    cbv zeta. rewrite A1, A2, A3, A4, A5, A6, A7, A8. splits; try reflexivity.
+    + unfold fin, inprog_remove, completed_add, rec_set_status. cbn. apply length_upd.
+    + intros x. rewrite A9. unfold fin, inprog_remove, completed_add. cbn [completed set_inprog set_completed].
+      change (completed (rec_set_status a FINISHED s)) with (completed s). rewrite In_sadd. cbn. intuition.
+    + intros x. rewrite A10. unfold fin, inprog_remove, completed_add. cbn [inprog set_inprog set_completed].
+      change (inprog (rec_set_status a FINISHED s)) with (inprog s). rewrite In_srem. cbn. intuition.
+    + intros x Hx. apply A11.
+      change (status (getrec (rec_set_status a FINISHED s) x) <> INITIALIZED).
+      destruct (status_set_status a x FINISHED s) as [E|E]; rewrite E; [exact Hx|discriminate].
+    + intros x Hx. rewrite A12 by (intros H; apply Hx; right; exact H).
+      change (getrec (rec_set_status a FINISHED s) x = getrec s x).
+      apply getrec_set_status_neq. intros ->. apply Hx. left. reflexivity.
+Qed.
+
+Lemma upd_ext {A} n (f f' : A -> A) l : (forall a, f a = f' a) -> upd n f l = upd n f' l.
+Proof.
+  intros H. revert n. induction l as [|a l IH]; intros [|n]; cbn; auto; [rewrite H|rewrite IH]; reflexivity.
+Qed.
+
+Lemma mem_ext x l l' : (In x l <-> In x l') -> mem x l = mem x l'.
+Proof.
+  intros H. destruct (mem x l) eqn:A, (mem x l') eqn:B; auto.
+  - apply mem_In in A. apply H in A. apply mem_In in A. congruence.
+  - apply mem_In in B. apply H in B. apply mem_In in B. congruence.
+Qed.
+
+Lemma init_eqb a b : (a = INITIALIZED <-> b = INITIALIZED) -> state_eqb a INITIALIZED = state_eqb b INITIALIZED.
+Proof.
+  intros [H1 H2]. destruct a, b; cbn; try reflexivity;
+    try (exfalso; discriminate (H1 eq_refl)); try (exfalso; discriminate (H2 eq_refl)).
+Qed.
+
+Section LockStep.
+  Variables (cr cd : cfg) (g : graph).
+  Hypothesis Hr : dry cr = false.
+  Hypothesis Hd : dry cd = true.
+  Hypothesis Ht : throttle cd = throttle cr.
+  Hypothesis Ha : 0 < attempts cr.
+
+  (** scripts generated so far in the current poll *)
+  Definition gl (s : st) : list nat := gens (rev (evs s)).
+
+  Record Sim (sr sd : st) : Prop := {
+    sm_dry : Dry g sd;
+    sm_len : length (recs sr) = length g;
+    sm_ready : ready sr = ready sd;
+    sm_deps : deps sr = deps sd;
+    sm_canceled : canceled sr = false;
+    sm_failed : failed sr = [];
+    sm_cancelled : cancelled sr = [];
+    sm_subs : subs sr = [];
+    sm_comp : forall x, In x (completed sd) <-> In x (completed sr) \/ In x (inprog sr);
+    sm_init : forall x, x < length g ->
+              (status (getrec sr x) = INITIALIZED <-> status (getrec sd x) = INITIALIZED) }.
+
+  (** staging, node by node, while nothing is tracked *)
+  Lemma sim_stage_node sr sd y : Sim sr sd -> inprog sr = [] -> y < length g ->
+    Sim (stage_node_gen g sr y) (stage_node_gen g sd y) /\ inprog (stage_node_gen g sr y) = [] /\
+    evs (stage_node_gen g sr y) = evs sr /\ evs (stage_node_gen g sd y) = evs sd.
+  Proof.
+    intros S Hi Hy. pose proof S as [SD SL SR SP SC SF SCa SS SCo SI].
+    destruct (dry_stage_node g sd y SD Hy) as (D1 & _ & _ & _).
+    assert (Em : forall p, mem p (completed sr) = mem p (completed sd)).
+    { intros p. apply mem_ext. rewrite SCo, Hi. cbn. tauto. }
+    assert (Es : state_eqb (status (getrec sr y)) INITIALIZED = state_eqb (status (getrec sd y)) INITIALIZED)
+      by (apply init_eqb; apply SI; exact Hy).
+    assert (Ep : deps (deps_prune y sr) = deps (deps_prune y sd)).
+    { unfold deps_prune. cbn. rewrite SP. apply upd_ext. intros a. apply filter_ext. intros p. rewrite Em. reflexivity. }
+    revert D1. unfold stage_node_gen. rewrite Em, Es.
+    destruct (mem y (completed sd)); [intros _; splits; auto|].
+    destruct (state_eqb (status (getrec sd y)) INITIALIZED); [|intros _; splits; auto].
+    unfold getdeps. rewrite Ep.
+    change (ready (deps_prune y sr)) with (ready sr). change (ready (deps_prune y sd)) with (ready sd). rewrite SR.
+    destruct (is_nil (nth y (deps (deps_prune y sd)) [])).
+    - destruct (negb (mem y (ready sd))); intros D1; splits; auto.
+      + constructor; auto; unfold ready_push; cbn; rewrite ?SR; auto.
+      + constructor; auto.
+    - intros D1. splits; auto. constructor; auto.
+  Qed.
+
+  Lemma sim_stage_fold l : forall sr sd, Sim sr sd -> inprog sr = [] -> (forall y, In y l -> y < length g) ->
+    Sim (fold_left (stage_node_gen g) l sr) (fold_left (stage_node_gen g) l sd) /\
+    inprog (fold_left (stage_node_gen g) l sr) = [] /\
+    evs (fold_left (stage_node_gen g) l sr) = evs sr /\ evs (fold_left (stage_node_gen g) l sd) = evs sd.
+  Proof.
+    induction l as [|y l IH]; intros sr sd S Hi Hl; cbn [fold_left]; [auto|].
+    destruct (sim_stage_node sr sd y S Hi (Hl y (or_introl eq_refl))) as (S1 & I1 & E1 & E2).
+    destruct (IH _ _ S1 I1 (fun z Hz => Hl z (or_intror Hz))) as (S2 & I2 & E3 & E4).
+    splits; auto; congruence.
+  Qed.
+
+  (** a successful first attempt *)
+  Lemma submit_first_ok y s : subs s = [] ->
+    submit_attempts g y false (attempts cr) s =
+    (true, let s2 := if scheduled (attr g y) then rec_set_status y PENDING s
+                     else rec_set_status y RUNNING (rec_set_status y PENDING s) in
+           emit (ESubmit y Main (scheduled (attr g y)) (Some (next_job s2)))
+                (rec_push_job y (next_job s2) (set_next_job s2 (S (next_job s2))))).
+  Proof.
+    intros Hs. destruct (attempts cr) as [|n] eqn:E; [lia|]. rewrite submit_attempts_S. cbv zeta.
+    set (s2 := if scheduled (attr g y) then _ else _).
+    assert (E2 : subs s2 = []) by (subst s2; destruct (scheduled (attr g y)); exact Hs).
+    unfold next_sub. rewrite E2. reflexivity.
+  Qed.
+
+  (** launching: the same head of the queue, the same script generation *)
+  Lemma sim_launch_body sr sd : Sim sr sd ->
+    Sim (launch_body_gen cr g sr) (launch_body_gen cd g sd) /\
+    exists G, gl (launch_body_gen cr g sr) = gl sr ++ G /\ gl (launch_body_gen cd g sd) = gl sd ++ G.
+  Proof.
+    intros SM. pose proof SM as [SD SL SR SP SC SF SCa SS SCo SI].
+    destruct (dry_launch_step cd g sd Hd SD) as [D1 A].
+    unfold launch_body_gen in *. rewrite SR. destruct (ready sd) as [|y rest] eqn:Er.
+    { split; [exact SM|]. exists []. rewrite !app_nil_r. auto. }
+    assert (Hyr : In y (ready sd)) by (rewrite Er; left; reflexivity).
+    assert (Hy : y < length g) by (apply (d_bound g sd SD); auto).
+    cbn [canceled set_ready] in *. rewrite SC. rewrite (d_canceled g sd SD) in *.
+    destruct A as (A1 & A2 & A3).
+    unfold execute_record_gen in *. rewrite Hr. rewrite Hd in *. cbn [negb] in *.
+    rewrite submit_first_ok by exact SS. cbv zeta.
+    set (s0 := emit (EGen y) (set_ready sr rest)).
+    set (s2 := if scheduled (attr g y) then rec_set_status y PENDING s0
+               else rec_set_status y RUNNING (rec_set_status y PENDING s0)).
+    set (s3 := emit (ESubmit y Main (scheduled (attr g y)) (Some (next_job s2)))
+                    (rec_push_job y (next_job s2) (set_next_job s2 (S (next_job s2))))).
+    assert (F3 : completed s3 = completed sr /\ inprog s3 = inprog sr /\ ready s3 = rest /\ deps s3 = deps sr /\
+                 canceled s3 = false /\ failed s3 = [] /\ cancelled s3 = [] /\ subs s3 = [] /\
+                 length (recs s3) = length g /\ evs s3 = ESubmit y Main (scheduled (attr g y)) (Some (next_job s2)) :: EGen y :: evs sr /\
+                 (forall x, x <> y -> getrec s3 x = getrec sr x) /\ status (getrec s3 y) <> INITIALIZED).
+    { subst s3 s2 s0. destruct (scheduled (attr g y)); cbn; rewrite ?length_upd; splits; auto;
+        try (intros x Hx; unfold getrec; cbn; rewrite !nth_upd_neq by auto; reflexivity);
+        unfold getrec; cbn; rewrite !nth_upd_eq by (rewrite ?length_upd; lia); cbn; discriminate. }
+    destruct F3 as (F1 & F2 & F3 & F4 & F5 & F6 & F7 & F8 & F9 & F10 & F11 & F12).
+    set (sd' := completed_add y (rec_set_status y DRYRUN (emit (EGen y) (set_ready sd rest)))) in *.
+    assert (Gd : gl sd' = gl sd ++ [y]).
+    { unfold gl. rewrite A3. cbn [rev]. rewrite gens_app. reflexivity. }
+    assert (Dy : status (getrec sd' y) <> INITIALIZED).
+    { rewrite (d_status g sd' D1 y Hy).
+      assert (M : mem y (completed sd') = true) by (apply mem_In; rewrite A1; apply in_app_iff; right; left; reflexivity).
+      rewrite M. discriminate. }
+    assert (Dx : forall x, x <> y -> getrec sd' x = getrec sd x).
+    { intros x Hx. unfold sd', completed_add. unfold getrec. cbn [recs set_completed].
+      change (getrec (rec_set_status y DRYRUN (emit (EGen y) (set_ready sd rest))) x = getrec sd x).
+      rewrite getrec_set_status_neq by auto. reflexivity. }
+    assert (Cd : forall x, In x (completed sd') <-> x = y \/ In x (completed sd)).
+    { intros x. rewrite A1, in_app_iff. cbn. intuition. }
+    destruct (scheduled (attr g y)) eqn:Sch; cbn [negb].
+    - (* scheduled: the step becomes tracked *)
+      split.
+      + constructor; auto; unfold inprog_add; cbn [recs ready deps canceled failed cancelled subs completed inprog set_inprog];
+          try congruence.
+        * intros x. rewrite Cd, SCo, F1, F2, In_sadd. tauto.
+        * intros x Hx. destruct (Nat.eq_dec x y) as [->|Hn].
+          -- split; intros H; [exfalso; apply F12|exfalso; apply Dy]; exact H.
+          -- change (status (getrec s3 x) = INITIALIZED <-> status (getrec sd' x) = INITIALIZED).
+             rewrite F11, Dx by auto. apply SI. exact Hx.
+      + exists [y]. split; [|exact Gd]. unfold gl, inprog_add. cbn [evs set_inprog]. rewrite F10. cbn [rev].
+        rewrite !gens_app. cbn. rewrite app_nil_r. reflexivity.
+    - (* local: the step completes at once *)
+      split.
+      + constructor; auto; unfold inprog_remove, completed_add, inprog_add;
+          cbn [recs ready deps canceled failed cancelled subs completed inprog set_inprog set_completed]; try congruence.
+        * change (length (recs (rec_set_status y FINISHED (set_inprog s3 (sadd y (inprog s3))))) = length g).
+          rewrite len_recs_set_status. exact F9.
+        * intros x. change (completed (rec_set_status y FINISHED (set_inprog s3 (sadd y (inprog s3))))) with (completed s3).
+          change (inprog (rec_set_status y FINISHED (set_inprog s3 (sadd y (inprog s3))))) with (sadd y (inprog s3)).
+          rewrite Cd, SCo, F1, F2, In_sadd, In_srem, In_sadd.
+          destruct (Nat.eq_dec x y); intuition.
+        * intros x Hx.
+          change (status (getrec (rec_set_status y FINISHED (set_inprog s3 (sadd y (inprog s3)))) x) = INITIALIZED <->
+                  status (getrec sd' x) = INITIALIZED).
+          destruct (Nat.eq_dec x y) as [->|Hn].
+          -- rewrite getrec_set_status_eq by (change (y < length (recs s3)); rewrite F9; exact Hx). cbn [status].
+             split; intros H; [discriminate|exfalso; apply Dy; exact H].
+          -- rewrite getrec_set_status_neq by auto.
+             change (getrec (set_inprog s3 (sadd y (inprog s3))) x) with (getrec s3 x).
+             rewrite F11, Dx by auto. apply SI. exact Hx.
+      + exists [y]. split; [|exact Gd]. unfold gl, inprog_remove, completed_add, inprog_add. cbn [evs set_inprog set_completed].
+        change (evs (rec_set_status y FINISHED (set_inprog s3 (sadd y (inprog s3))))) with (evs s3).
+        rewrite F10. cbn [rev]. rewrite !gens_app. cbn. rewrite app_nil_r. reflexivity.
+  Qed.
+
+  Lemma sim_launch_iter n : forall sr sd, Sim sr sd -> gl sr = gl sd ->
+    Sim (Nat.iter n (launch_body_gen cr g) sr) (Nat.iter n (launch_body_gen cd g) sd) /\
+    gl (Nat.iter n (launch_body_gen cr g) sr) = gl (Nat.iter n (launch_body_gen cd g) sd).
+  Proof.
+    induction n as [|n IH]; intros sr sd S E; [cbn; auto|]. rewrite !iter_S.
+    destruct (IH sr sd S E) as [S1 E1].
+    destruct (sim_launch_body _ _ S1) as (S2 & G & G1 & G2). split; auto. congruence.
+  Qed.
+
+  (** one poll of the ideal real run against one poll of the dry run *)
+  Theorem sim_poll sr sd pd : Sim sr sd -> cancel_req pd = false ->
+    Sim (fst (poll cr g sr (ipin sr))) (fst (poll cd g sd pd)) /\
+    gl (fst (poll cr g sr (ipin sr))) = gl (fst (poll cd g sd pd)) /\
+    (snd (poll cr g sr (ipin sr)) = SRUNNING \/
+     (snd (poll cr g sr (ipin sr)) = SFINISHED /\ snd (poll cd g sd pd) = SFINISHED)).
+  Proof.
+    intros S Hc. pose proof S as [SD SL SR SP SC SF SCa SS SCo SI].
+    rewrite (dry_poll_phases cd g sd pd Hd).
+    rewrite (poll_phases cr g sr (ipin sr)) by (intros _; discriminate).
+    unfold delivered. rewrite Hr. cbn [ipin qcode reports].
+    (* the states at query time *)
+    set (qr := at_query cr sr (ipin sr)). set (qd := at_query cd sd pd).
+    assert (Qr : qr = emit (ECheck (map (lastjob sr) (inprog sr))) (set_evs (set_subs sr []) [])).
+    { unfold qr, at_query. rewrite Hr. reflexivity. }
+    assert (Qd : qd = set_evs (set_subs sd (psubs pd)) []).
+    { unfold qd, at_query. rewrite Hd, Hc. reflexivity. }
+    (* dispatch of the FINISHED reports *)
+    rewrite dispatch_finished.
+    set (s1 := fold_left (fun s x => fin x s) (inprog sr) qr).
+    pose proof (fold_fin_props (inprog sr) qr) as P. cbv zeta in P. fold s1 in P.
+    destruct P as (P1 & P2 & P3 & P4 & P5 & P6 & P7 & P8 & P9 & P10 & P11 & P12).
+    assert (I1 : inprog s1 = []).
+    { assert (Hno : forall a, ~ In a (inprog s1)).
+      { intros a Ha1. apply P10 in Ha1. rewrite Qr in Ha1. cbn in Ha1. tauto. }
+      destruct (inprog s1) as [|a l]; auto. exfalso. apply (Hno a). left. reflexivity. }
+    assert (Dq : Dry g qd) by (rewrite Qd; destruct SD; constructor; auto).
+    assert (S1 : Sim s1 qd).
+    { constructor; auto.
+      - rewrite P8, Qr. cbn. exact SL.
+      - rewrite P1, Qr, Qd. cbn. exact SR.
+      - rewrite P2, Qr, Qd. cbn. exact SP.
+      - rewrite P3, Qr. cbn. exact SC.
+      - rewrite P4, Qr. cbn. exact SF.
+      - rewrite P5, Qr. cbn. exact SCa.
+      - rewrite P6, Qr. reflexivity.
+      - intros x. rewrite I1, P9, Qr, Qd. cbn. rewrite SCo. tauto.
+      - intros x Hx. rewrite Qd.
+        change (status (getrec s1 x) = INITIALIZED <-> status (getrec sd x) = INITIALIZED).
+        destruct (in_dec Nat.eq_dec x (inprog sr)) as [Hin|Hin].
+        + assert (Nd : status (getrec sd x) <> INITIALIZED).
+          { rewrite (d_status g sd SD x Hx).
+            assert (M : mem x (completed sd) = true) by (apply mem_In; apply SCo; auto). rewrite M. discriminate. }
+          assert (Nr : status (getrec s1 x) <> INITIALIZED).
+          { apply P11. rewrite Qr. change (status (getrec sr x) <> INITIALIZED). intros H. apply Nd. apply SI; auto. }
+          split; intros H; contradiction.
+        + rewrite P12 by exact Hin. rewrite Qr. change (status (getrec sr x) = INITIALIZED <-> status (getrec sd x) = INITIALIZED).
+          apply SI. exact Hx. }
+    assert (G1 : gl s1 = gl qd).
+    { unfold gl. rewrite P7, Qr, Qd. reflexivity. }
+    (* staging and launching *)
+    unfold stage_launch. cbn [fst snd].
+    destruct (sim_stage_fold (seq 0 (length g)) s1 qd S1 I1 (fun y Hy => proj1 (In_seq_lt y _) Hy)) as (S2 & I2 & E2 & E3).
+    set (t1 := fold_left (stage_node_gen g) (seq 0 (length g)) s1) in *.
+    set (t2 := fold_left (stage_node_gen g) (seq 0 (length g)) qd) in *.
+    assert (Av : available_gen cr t1 = available_gen cd t2).
+    { unfold available_gen. rewrite Ht, I2, (sm_ready _ _ S2), (d_inprog g t2 (sm_dry _ _ S2)). reflexivity. }
+    rewrite Av.
+    assert (G2 : gl t1 = gl t2) by (unfold gl; rewrite E2, E3; exact G1).
+    destruct (sim_launch_iter (available_gen cd t2) t1 t2 S2 G2) as [S3 G3].
+    set (u1 := Nat.iter (available_gen cd t2) (launch_body_gen cr g) t1) in *.
+    set (u2 := Nat.iter (available_gen cd t2) (launch_body_gen cd g) t2) in *.
+    splits; auto.
+    (* the verdicts *)
+    pose proof S3 as [TD TL TR TP TC TF TCa TS TCo TI].
+    unfold completion_gen at 1 2. rewrite TC, TF, TCa. cbn [andb is_nil negb app]. rewrite app_nil_r.
+    destruct (subset (seq 0 (length g)) (completed u1)) eqn:Sub; [right|left; reflexivity].
+    split; [reflexivity|].
+    destruct (Dry_completion g u2 TD) as [[R _]|[_ (x & Hx & Hn)]]; [exact R|exfalso].
+    apply Hn. apply TCo. left. apply subset_incl in Sub. apply Sub. apply In_seq_lt. exact Hx.
+  Qed.
+End LockStep.
+
+(** ** the ideal real run as a run, and the run-level comparison *)
+Fixpoint ideal_run (c : cfg) (g : graph) (s : st) (n : nat) : list obs :=
+  match n with
+  | O => []
+  | S n' =>
+    let '(s1, r) := poll c g s (ipin s) in
+    let o := (rev (evs s1), rows_of s1, r) in
+    match r with SRUNNING => o :: ideal_run c g s1 n' | _ => [o] end
+  end.
+
+(** the poll inputs of the ideal run (each depends on the state reached) *)
+Fixpoint ideal_pins (c : cfg) (g : graph) (s : st) (n : nat) : list pin :=
+  match n with
+  | O => []
+  | S n' => ipin s :: (let '(s1, r) := poll c g s (ipin s) in
+                       match r with SRUNNING => ideal_pins c g s1 n' | _ => [] end)
+  end.
+
+Lemma ideal_run_is_run c g n : forall s, ideal_run c g s n = run c g s (ideal_pins c g s n).
+Proof.
+  induction n as [|n IH]; intros s; cbn [ideal_run ideal_pins run]; [reflexivity|].
+  destruct (poll c g s (ipin s)) as [s1 r]. destruct r; try reflexivity. rewrite IH. reflexivity.
+Qed.
+
+Definition gens_all (os : list obs) : list nat := flat_map (fun o : obs => gens (fst (fst o))) os.
+
+Lemma gens_all_cons es rows r os : gens_all ((es, rows, r) :: os) = gens es ++ gens_all os.
+Proof. reflexivity. Qed.
+Lemma gens_all_nil : gens_all [] = [].
+Proof. reflexivity. Qed.
+
+Section LockStepRun.
+  Variables (cr cd : cfg) (g : graph).
+  Hypothesis W : WF g.
+  Hypothesis Hr : dry cr = false.
+  Hypothesis Hd : dry cd = true.
+  Hypothesis Ht : throttle cd = throttle cr.
+  Hypothesis Ha : 0 < attempts cr.
+
+  (** nothing left to launch: every instance has been launched, the queue is empty *)
+  Definition Quiescent (s : st) : Prop :=
+    ready s = [] /\ (forall x, x < length g -> status (getrec s x) <> INITIALIZED).
+
+  Lemma stage_node_noinit s y : status (getrec s y) <> INITIALIZED -> stage_node_gen g s y = s.
+  Proof.
+    intros H. unfold stage_node_gen. destruct (mem y (completed s)); [reflexivity|].
+    destruct (state_eqb (status (getrec s y)) INITIALIZED) eqn:E; [|reflexivity].
+    apply state_eqb_eq in E. contradiction.
+  Qed.
+
+  Lemma stage_fold_noinit l : forall s, (forall y, In y l -> status (getrec s y) <> INITIALIZED) ->
+    fold_left (stage_node_gen g) l s = s.
+  Proof.
+    induction l as [|y l IH]; intros s H; cbn [fold_left]; [reflexivity|].
+    rewrite stage_node_noinit by (apply H; left; reflexivity). apply IH. intros z Hz. apply H. right. exact Hz.
+  Qed.
+
+  Lemma quiescent_poll s : Quiescent s ->
+    Quiescent (fst (poll cr g s (ipin s))) /\ gl (fst (poll cr g s (ipin s))) = [].
+  Proof.
+    intros [Q1 Q2]. rewrite (poll_phases cr g s (ipin s)) by (intros _; discriminate).
+    unfold delivered. rewrite Hr. cbn [ipin qcode reports]. rewrite dispatch_finished.
+    set (qr := at_query cr s (ipin s)).
+    assert (Qr : qr = emit (ECheck (map (lastjob s) (inprog s))) (set_evs (set_subs s []) [])).
+    { unfold qr, at_query. rewrite Hr. reflexivity. }
+    set (s1 := fold_left (fun s x => fin x s) (inprog s) qr).
+    pose proof (fold_fin_props (inprog s) qr) as P. cbv zeta in P. fold s1 in P.
+    destruct P as (P1 & _ & _ & _ & _ & _ & P7 & _ & _ & _ & P11 & _).
+    assert (N1 : forall x, x < length g -> status (getrec s1 x) <> INITIALIZED).
+    { intros x Hx. apply P11. rewrite Qr. change (status (getrec s x) <> INITIALIZED). auto. }
+    assert (R1 : ready s1 = []) by (rewrite P1, Qr; exact Q1).
+    unfold stage_launch. cbn [fst].
+    rewrite stage_fold_noinit by (intros y Hy; apply N1; apply In_seq_lt; exact Hy).
+    assert (Av : available_gen cr s1 = 0).
+    { unfold available_gen. rewrite R1. cbn [length]. destruct (throttle cr =? 0); [reflexivity|apply Nat.min_0_r]. }
+    rewrite Av. cbn [Nat.iter nat_rect]. split; [split; auto|].
+    unfold gl. rewrite P7, Qr. reflexivity.
+  Qed.
+
+  Lemma quiescent_run n : forall s, Quiescent s -> gens_all (ideal_run cr g s n) = [].
+  Proof.
+    induction n as [|n IH]; intros s Q; cbn [ideal_run]; [reflexivity|].
+    destruct (quiescent_poll s Q) as [Q1 G1].
+    destruct (poll cr g s (ipin s)) as [s1 r]. cbn [fst] in Q1, G1. unfold gl in G1.
+    destruct r; rewrite gens_all_cons, G1, ?gens_all_nil; try reflexivity. cbn [app]. apply IH. exact Q1.
+  Qed.
+
+  Lemma sim_done_quiescent sr sd : Sim g sr sd -> all_done g sd -> Quiescent sr.
+  Proof.
+    intros S A. pose proof S as [SD SL SR SP SC SF SCa SS SCo SI]. split.
+    - rewrite SR. destruct (ready sd) as [|y l] eqn:E; auto. exfalso.
+      assert (Hy : In y (ready sd)) by (rewrite E; left; reflexivity).
+      apply (d_cr g sd SD y); auto. apply A. apply (d_bound g sd SD). auto.
+    - intros x Hx H. apply SI in H; auto. rewrite (d_status g sd SD x Hx) in H.
+      assert (M : mem x (completed sd) = true) by (apply mem_In; auto). rewrite M in H. discriminate.
+  Qed.
+
+  Theorem lockstep_run ps : forall sr sd, Sim g sr sd -> Forall nocancel ps ->
+    gens_all (ideal_run cr g sr (length ps)) = gens_all (run cd g sd ps).
+  Proof.
+    induction ps as [|p ps IH]; intros sr sd S HK; [reflexivity|].
+    inversion HK as [|p' ps' Hp HK']; subst.
+    cbn [length ideal_run run].
+    destruct (sim_poll cr cd g Hr Hd Ht Ha sr sd p S Hp) as (S1 & G1 & V).
+    destruct (dry_poll_progress cd g sd p W Hd Hp (sm_dry _ _ _ S)) as (_ & _ & R).
+    destruct (poll cr g sr (ipin sr)) as [sr1 rr]. destruct (poll cd g sd p) as [sd1 rd].
+    cbn [fst snd] in *. unfold gl in G1.
+    destruct V as [-> | [-> ->]].
+    - destruct R as [[-> A]|[-> _]].
+      + rewrite !gens_all_cons, G1, gens_all_nil. f_equal. apply quiescent_run.
+        eapply sim_done_quiescent; eauto.
+      + rewrite !gens_all_cons, G1. f_equal. apply IH; auto.
+    - rewrite !gens_all_cons, G1. reflexivity.
+  Qed.
+
+  Lemma Sim_init : Sim g (init g) (init g).
+  Proof.
+    constructor; try reflexivity; [apply Dry_init | apply map_length | |]; intros x; cbn; tauto.
+  Qed.
+
+  (** C17_same_scripts: the dry run generates the scripts of the same instances in the same
+      order as the real run in which every submission succeeds and every job finishes *)
+  Theorem same_scripts ps : Forall nocancel ps ->
+    gens_all (run cr g (init g) (ideal_pins cr g (init g) (length ps))) = gens_all (run cd g (init g) ps).
+  Proof. intros HK. rewrite <- ideal_run_is_run. apply lockstep_run; [apply Sim_init|exact HK]. Qed.
+End LockStepRun.
